@@ -10,6 +10,17 @@ BASE = ("cd /repo && env -u TRACKLIB_VERIF_TRACE /venv/bin/python -m pytest -ra 
 
 # pid -> (module(s), technique, level text, level note, design ref)
 CHECKS = {
+    "C19": ("RasterGrid", "TLA+ model of the raster grid: closed cell footprints, aggregate definitions on non-NaN values, "
+            "transcriptions of Raster.getCell and of the cell operators checked by TLC (pinned operators refuted); summarize() "
+            "calls (assignment recovered through unique tags, six aggregate grids) and getCell calls recorded from the real "
+            "code judged by RasterGridTrace.tla (code->spec)",
+            "TLC: getCell's cell lies in range and its closed footprint contains the point for every lattice point of every grid up "
+            "to 12 x 8 fine units and 4 resolutions; operators = definition on all lists of length <= 3 with NaN. Real getCell on "
+            "every quarter-unit point of boxes up to 4 x 3 (6 resolutions, margins 0 and 1/4); real summarize() on random "
+            "collections: every observation in exactly one in-range cell whose footprint contains it, counts add up, every cell "
+            "of count / sum / min / max / mean / median equals the aggregate of the non-NaN values assigned to it, empty cells "
+            "hold 0 / no-data.",
+            "TLC 1.8; 1/8-unit lattice so that floats are exact; border points may fall in either adjacent cell", "5/C19"),
     "C16": ("Simplify", "TLA+ acceptance predicate (subsequence, end points, exact distance-to-polyline bound) + transcriptions of "
             "the Douglas-Peucker recursion and the Visvalingam elimination loop checked by TLC on every lattice track (pinned "
             "variants refuted); outputs recorded from simplify() judged by SimplifyTrace.tla (code->spec)",
